@@ -168,13 +168,17 @@ def lemma(qual, at=None):
     return _reg("lemma", qual, at=at)
 
 
-def hint(qual, loop=None, when="head", scoped=False, uses=()):
+def hint(qual, loop=None, when="head", scoped=False, uses=(), before=None):
     """an assertion the verifier proves at the given point and may use afterwards (Dafny-style `assert`):
     loop=k, when='head' (after assuming the invariant) | 'end' (before re-establishing it) | 'exit';
     loop=None: before the postconditions at every return."""
     def deco(fn):
         c = _c(qual)
         c.funcs[fn.__name__] = fn
+        if before is not None:
+            # proved (and then available) immediately before the first statement whose source text contains `before`
+            c.hints.setdefault(("before", before), []).append(fn.__name__)
+            return fn
         c.hints.setdefault((loop if loop is not None else ("entry" if when == "entry" else "return"), "head" if when == "entry" else when), []).append(fn.__name__)
         if scoped:
             c.opts.setdefault("scoped", set()).add(fn.__name__)
@@ -403,3 +407,11 @@ def index_of(x, v):
     import numpy as np
     hits = np.where(np.asarray(x) == v)[0]
     return int(hits[0]) if len(hits) else -1
+
+
+def seq_of(n, f):
+    return [f(i) for i in range(n)]
+
+
+def arr_of(seq):
+    return seq
